@@ -3,7 +3,7 @@
 MODULE = "DtailModel.Props.C06"
 # scripts with real waits: a disagreement counts only if it reproduces when re-run alone (flake policy, DESIGN 2.3)
 TIMED_OPS = ("c06.fifo", "c06.queue", "c06.merge", "c06.server")
-GROUPS = ["C06"]
+GROUPS = ["C06", "C15"]
 LOGGER = "none"
 JOBS = 16
 BUDGET = {"quick": 44, "thorough": 700}
@@ -31,7 +31,7 @@ RULE = ("queue scripts on the real Aggregate: one file still being read plus 3 /
         "non-trivial = multi-file / rotation / lost / held tag")
 
 
-def gen(rng, budget, tier):
+def _gen_c06(rng, budget, tier):
     yield "c06.merge 2 A0:x:5,H,A1:x:7,G"                   # repaired: last partial arriving while the global group is busy
     yield "c06.merge 3 H,A0:x:1,A1:y:2,A2:x:4,G,A1:y:3"
     yield "c06.fifo 2 M,C0,P0,P0,X0,C1,P1,X1"                # recorded: file 1 registers after the aggregator finished
@@ -73,3 +73,15 @@ def gen(rng, budget, tier):
                 p = rng.choice([q for q in per if q])
                 ops.append(p.pop(0))
         yield f"c06.fifo {n} {','.join(['M'] + head + ops)}"
+
+
+def gen(rng, budget, tier):
+    # the final report (internal/clients/maprclient.go Start) against the periodic reporter on the same result:
+    # the final outfile must account for every group although an interim report is in flight
+    yield "c15.race 3000 12"
+    yield from _gen_c06(rng, budget, tier)
+
+
+def batches(cases):
+    # the race case on its own (first), the timed scripts afterwards
+    return [[c for c in cases if c.startswith("c15.race")], [c for c in cases if not c.startswith("c15.race")]]
